@@ -192,52 +192,36 @@ Qed.
 
 (* ------------------------------------------------------------------ atomicity of apply_config *)
 
-Lemma apply_config_refused_lemma : forall o s w s' r,
-  apply_config o s = (w, s', r) -> r <> RChanged -> w = [] /\ s' = s.
+Lemma apply_config_refused_lemma : forall hot o mem st st' mem' r,
+  apply_config hot o mem st = (st', mem', r) -> r <> RChanged -> st' = st /\ mem' = mem.
 Proof.
-  intros o s w s' r H Hr. unfold apply_config in H.
-  destruct (opt_eqb (s C_append_only) (Some 1) && negb (opt_eqb (o O_set_append_only) (Some 0))).
+  intros hot o mem st st' mem' r H Hr. unfold apply_config in H.
+  destruct (opt_eqb (mem C_append_only) (Some 1) && negb (opt_eqb (o O_set_append_only) (Some 0))).
   - inv H. auto.
-  - destruct (apply_mut o s) as [new r1]. destruct r1.
-    + destruct (config_eqb new s); inv H; auto. congruence.
+  - destruct (apply_mut o mem) as [new r1]. destruct r1.
+    + destruct (config_eqb new mem); inv H; auto. congruence.
     + inv H. auto.
     + inv H. auto.
 Qed.
 
-Lemma apply_config_changed_lemma : forall o s w s',
-  apply_config o s = (w, s', RChanged) ->
-  apply o s = Some s' /\ w = [upd s' C_is_hot None] /\ config_eqb s' s = false.
+Lemma apply_config_changed_lemma : forall hot o mem st st' mem',
+  apply_config hot o mem st = (st', mem', RChanged) ->
+  apply o mem = Some mem' /\ st' = save_config hot mem' st /\ config_eqb mem' mem = false.
 Proof.
-  intros o s w s' H. unfold apply_config in H. unfold apply.
-  destruct (opt_eqb (s C_append_only) (Some 1) && negb (opt_eqb (o O_set_append_only) (Some 0))); [inv H|].
-  destruct (apply_mut o s) as [new r1]. destruct r1; try (inv H; fail).
-  destruct (config_eqb new s) eqn:E; inv H. auto.
+  intros hot o mem st st' mem' H. unfold apply_config in H. unfold apply.
+  destruct (opt_eqb (mem C_append_only) (Some 1) && negb (opt_eqb (o O_set_append_only) (Some 0))); [inv H|].
+  destruct (apply_mut o mem) as [new r1]. destruct r1; try (inv H; fail).
+  destruct (config_eqb new mem) eqn:E; inv H. auto.
 Qed.
 
-Lemma apply_config_append_only_lemma : forall o s,
-  s C_append_only = Some 1 -> o O_set_append_only <> Some 0 ->
-  apply_config o s = ([], s, RRefused E_APPEND_ONLY).
+Lemma apply_config_append_only_lemma : forall hot o mem st,
+  mem C_append_only = Some 1 -> o O_set_append_only <> Some 0 ->
+  apply_config hot o mem st = (st, mem, RRefused E_APPEND_ONLY).
 Proof.
-  intros o s Hs Ho. unfold apply_config. rewrite Hs. cbn [opt_eqb].
+  intros hot o mem st Hs Ho. unfold apply_config. rewrite Hs. cbn [opt_eqb].
   replace (opt_eqb (o O_set_append_only) (Some 0)) with false; [reflexivity|].
   destruct (o O_set_append_only) as [z|]; cbn [opt_eqb]; [|reflexivity].
   destruct (Z.eqb_spec z 0); [subst; congruence|reflexivity].
-Qed.
-
-(* every configuration file a sequence of changes writes is an accepted configuration *)
-Lemma apply_configs_writes_accepted : forall l s f,
-  In f (fst (apply_configs l s)) ->
-  exists o s0 new, apply o s0 = Some new /\ f = upd new C_is_hot None.
-Proof.
-  induction l as [|o r IH]; intros s f H; [destruct H|].
-  cbn [apply_configs] in H.
-  destruct (apply_config o s) as [[w s'] res] eqn:E.
-  destruct (apply_configs r s') as [w' s''] eqn:E2. cbn [fst] in H.
-  apply in_app_or in H. destruct H as [H|H].
-  - destruct res; try (apply apply_config_refused_lemma in E; [destruct E; subst; destruct H|congruence]).
-    apply apply_config_changed_lemma in E. destruct E as (Ea & -> & _).
-    destruct H as [<-|[]]. eauto.
-  - apply (IH s' f). rewrite E2. exact H.
 Qed.
 
 (* ------------------------------------------------------------------ no panic in apply *)
